@@ -23,11 +23,14 @@ def fits_impl(c, cache_size=1024):
     q = None if c.get('inq') is None else specs.mk_inquiry(c['inq'])
     what = specs.py(c['what'])
     if isinstance(what, dict) and c.get('dict_default') is not None:
-        # a dictionary that is a dict subclass answering every missing key with a default (collections.defaultdict):
+        # a dictionary that is a dict subclass answering every missing key with a default (like collections.defaultdict):
         # still "a dictionary that does not contain the attribute"
-        import collections
         dflt = specs.py(c['dict_default'][0])
-        what = collections.defaultdict(lambda: dflt, what)
+
+        class Defaulting(dict):             # prints and compares like the dict it is (defaultdict's repr differs)
+            def __missing__(self, key):
+                return dflt
+        what = Defaulting(what)
     try:
         r = ck.fits(p, c['field'], what, q)
     except Exception as e:  # noqa
